@@ -154,7 +154,7 @@ func RefResolve(z *Zone, input string) RefOutcome {
 			if o.Additional == nil {
 				o.Additional = map[string][]string{}
 			}
-			if _, done := o.Additional[h.Target]; done {
+			if l, done := o.Additional[h.Target]; done && len(l) > 0 {
 				continue
 			}
 			allow(h.Target, "A", "AAAA")
